@@ -65,6 +65,10 @@ class TE(str, _enum.Enum):
 _SENTINEL = object()
 
 
+def _plain_function(*args, **kwargs):
+    raise AssertionError("an attribute value was called")
+
+
 class _Handle:
     """an application object that refuses to be copied (a connection, a lock, a GUI handle)"""
 
@@ -235,6 +239,10 @@ def gen_def(rng):
             # values that are objects of the application (compared by identity, not copyable): they are handed on as they are
             s["marker"] = _SENTINEL
             s["handle"] = _Handle()
+            # ... also values that happen to be callable (a class, a function): attribute values are data, only Randomizer
+            # instances are asked for a value
+            s["cls"] = int
+            s["fn"] = _plain_function
         if rng.random() < 0.2:
             # attribute names are arbitrary strings: only a *leading* colon marks a generator option
             s["xml:lang"] = "en"
@@ -375,6 +383,10 @@ def check_tree(tree, sd, typed, bad, res):
                         elif issubclass(rcls, tg.SampleRandomizer):
                             if v not in val.sample_list:
                                 bad.append(f"attribute {key}={v!r} not in sample list")
+                        elif rcls.__name__ == "SparseBoolRandomizer":
+                            # documented: "If the value is False, it is returned as None" - i.e. present means True
+                            if v is not True:
+                                bad.append(f"sparse boolean attribute {key}={v!r} (it is either True or absent)")
                         elif issubclass(rcls, tg.ValueRandomizer):
                             if v != val.value:
                                 bad.append(f"attribute {key}={v!r} != {val.value!r}")
